@@ -41,6 +41,8 @@ def c01(ctx):
         for r in res.exports:
             ctx.count_path("/".join(r["path"]))
         replay.run(ctx, "isi", res.exports)
+    import traces as _traces
+    _traces.validate_scan(ctx, "isi", ctx.seed + 101, 400 if ctx.tier == QUICK else 6000)
     ctx.assumptions += ["spike times on an integer grid, MRTS on the quarter grid; values compared with tolerance 1e-10",
                         "the compiled configuration executes the .pyx sources by transliteration (harness/pyxshim.py)"]
     return ctx.finish(rule="every ordered pair of trains (subsets of the grid, <= MaxSp spikes) x MRTS; "
@@ -71,6 +73,8 @@ def c02(ctx):
         for r in res.exports:
             ctx.count_path("/".join(r["path"]))
         replay.run(ctx, "spike", res.exports)
+    import traces as _traces
+    _traces.validate_scan(ctx, "spike", ctx.seed + 102, 300 if ctx.tier == QUICK else 4000)
     ctx.assumptions += ["spike times on an integer grid, MRTS on the quarter grid; values compared with tolerance 1e-10",
                         "a piecewise-linear profile is determined by its one-sided limits at the breakpoints (evaluation in between is C10)",
                         "the compiled configuration executes the .pyx sources by transliteration (harness/pyxshim.py)"]
@@ -129,6 +133,8 @@ def c03(ctx):
         for r in res.exports:
             ctx.count_path("single:" + "/".join(r["path"]))
         replay.run(ctx, "single", res.exports)
+    import traces as _traces
+    _traces.validate_scan(ctx, "sync", ctx.seed + 103, 300 if ctx.tier == QUICK else 4000)
     ctx.assumptions += ["integer spike times, MRTS and max_tau on the quarter grid so that dt = tau ties are exact in floats",
                         "the compiled configuration executes the .pyx sources by transliteration (harness/pyxshim.py)"]
     return ctx.finish(rule="every ordered pair of trains x MRTS x max_tau; a case is one TLC terminal state of "
